@@ -29,6 +29,12 @@ class Namespace(object):
     def __repr__(self):
         return '<model %s>' % self._name
 
+    def __getattr__(self, name):
+        if name.startswith('_') or name.endswith('_') or name in ('cls', 'attrs', 'func', 'node', 'shape', 'ndim'):
+            raise AttributeError(name)
+        # the real library may well have it: the summary is missing, which is an analysis gap, not a behaviour
+        raise AnalysisError('no model for %s.%s' % (self.__dict__.get('_name', '?'), name))
+
 
 class DType(object):
     def __init__(self, name, kind):
